@@ -104,6 +104,7 @@ fn main() {
     if let Some(p) = &args.progress {
         shell::open_progress(p);
     }
+    std::env::set_var("EPVERIF_TIER", if args.tier == Tier::Thorough { "thorough" } else { "quick" });
     if matches!(args.flavour.as_str(), "miri" | "vg") {
         gen::set_small(true);
     }
